@@ -171,12 +171,18 @@ def r2(ctx):
                 reach = dec.cfg.reachable(fb.id, labels=NONEXC)
                 ok = dec.cfg.exit.id not in reach
         ctx.check(ok, R, f"{gen}:decode:part-count", m, dec.node, f"a datagram without exactly {s['parts']} parts raises DecodeError", "count not enforced")
-        idt = dec.tests(lambda e: isinstance(e, ast.Compare) and isinstance(e.left, ast.Subscript))
+        idt = dec.tests(lambda e: isinstance(e, ast.Compare) and len(e.ops) == 1)
         ok = False
         found = "response id not compared"
         for t in idt:
-            i = ctx.repo.try_fold(m, t.ast.left.slice)
-            v = ctx.repo.try_fold(m, t.ast.comparators[0])
+            te = dec.expand(t.ast, t)
+            l, r = te.left, te.comparators[0]
+            if not isinstance(l, ast.Subscript) and isinstance(r, ast.Subscript):
+                l, r = r, l
+            if not isinstance(l, ast.Subscript):
+                continue
+            i = ctx.repo.try_fold(m, l.slice)
+            v = ctx.repo.try_fold(m, r)
             found = f"part[{i}] compared with {v!r}"
             if i == 2 and v == s["rid"].strip(b",") and isinstance(t.ast.ops[0], ast.NotEq):
                 reach = dec.cfg.reachable(dec.branch(t, "true").id, labels=NONEXC)
@@ -186,7 +192,7 @@ def r2(ctx):
         got = {}
         for n in rets:
             for k in n.ast.value.keywords:
-                v = k.value
+                v = dec.expand(k.value, n)
                 while isinstance(v, ast.Call) and isinstance(v.func, ast.Attribute) and v.func.attr == "decode":
                     v = v.func.value
                 if isinstance(v, ast.Subscript):
@@ -195,9 +201,24 @@ def r2(ctx):
         lenient = [c for c in ast.walk(dec.node) if isinstance(c, ast.Call) and isinstance(c.func, ast.Attribute) and c.func.attr == "decode" and any(k.arg == "errors" for k in c.keywords)]
         ctx.check(not lenient, R, f"{gen}:decode:strict-text", m, (lenient[0] if lenient else dec.node), "text fields are decoded strictly: a datagram with invalid UTF-8 adds nothing (it must not become an entry that ends the search)", norm_text(lenient[0])[:100] if lenient else "")
         mt = m.get_class(f"{cls}DiscoveryDecoder").methods.get("match")
-        rets = [x for x in ast.walk(mt) if isinstance(x, ast.Return)] if mt else []
-        txt = norm_text(rets[0].value) if len(rets) == 1 else ""
-        ctx.check(txt in ("buffer == _REQUEST_DATA or _RESPONSE_ID in buffer", "_RESPONSE_ID in buffer or buffer == _REQUEST_DATA", "_RESPONSE_ID in buffer"), R, f"{gen}:match", m, mt, "match() accepts the request echo or anything containing ',AirTouchN,'", txt)
+        # truth table of match() over the two facts it may consult (evaluated on the source by sa/minieval.py)
+        from ..minieval import Mini, Unsupported
+
+        ok, txt = mt is not None, ""
+        if mt is not None:
+            bp = mt.args.args[1].arg
+            rows = []
+            for echo in (False, True):
+                for has_id in (False, True):
+                    atoms = {f"{bp} == _REQUEST_DATA": echo, f"_REQUEST_DATA == {bp}": echo, f"_RESPONSE_ID in {bp}": has_id}
+                    try:
+                        got = Mini(ctx.repo, m, atoms).function_value(mt, {bp: "<datagram>"})
+                    except Unsupported as ex:
+                        raise AnalysisError(f"{m.relpath}: match() left the evaluable fragment: {ex}")
+                    rows.append((echo, has_id, got))
+            ok = all(bool(got) == (echo or has_id) for echo, has_id, got in rows) or all(bool(got) == has_id for echo, has_id, got in rows)
+            txt = "; ".join(f"echo={e}, contains-id={h} -> {g}" for e, h, g in rows)
+        ctx.check(ok, R, f"{gen}:match", m, mt, "match() accepts the request echo or anything containing ',AirTouchN,' and nothing else", txt)
 
 
 def r3(ctx):
